@@ -107,6 +107,18 @@ def directed_histories(tier: str):
                           (["CLAIM"], ["T2"]), ([], ["T1", "T2"])):
             cfg = {"mode": mode, "nums": nums, "ids": ids, "mfrMode": "none", "mfrs": [], "netmap": False}
             out.append([("Init", {"cfg": cfg, "ev": {"k": "init"}})] + [("Directed", {"cfg": cfg, "ev": e}) for e in hist])
+    # one input format from the first step to the last (a gateway speaks one format): claim, permitted and filtered traffic, a
+    # fast message, a re-claim - under number-only, id-only and mixed lists that do not name the claim
+    from ..decoderrun import FORMATS
+    for fmt in FORMATS:
+        def via(e, fmt=fmt):
+            return dict(e, fmt=fmt if not (e["k"] == "frame" and fmt == "acti-late") else "tcp")
+        h2 = [{"k": "claim", "src": 1, "name": 1}, single("A", 1), single("B", 1), {"k": "claim", "src": 2, "name": 2}, single("A", 2)] \
+            + frames(1, 2) + [{"k": "claim", "src": 1, "name": 2}, single("A", 1), single("B", 2)]
+        for mode in ("exclude", "include"):
+            for nums, ids in ((["A"], []), (["A", "F"], []), ([], ["A"]), (["B"], ["A"]), ([], [])):
+                cfg = {"mode": mode, "nums": nums, "ids": ids, "mfrMode": "none", "mfrs": [], "netmap": False}
+                out.append([("Init", {"cfg": cfg, "ev": {"k": "init"}})] + [("Directed", {"cfg": cfg, "ev": via(e)}) for e in h2])
     return out if tier != "selftest" else out[::3]
 
 
